@@ -95,6 +95,9 @@ OnN(s, st, n) ==
     [] s.op = "Trunc"    -> R(st1, <<N(IF v >= 0 THEN v \div 2 ELSE -((-v) \div 2), c)>>)
     [] s.op = "Abs"      -> R(st1, <<N(IF v >= 0 THEN v ELSE -v, c)>>)
     [] s.op = "Average"  -> R([st1 EXCEPT !.acc = @ + v], <<>>)
+    \* precision rounding at a place where the fed values are already round: the identity.  "P1": halves rounded to 1 decimal place (the plain
+    \* scaling path); "Big": v * 10^9 rounded to 300 decimal places (v * 10^309 overflows float64: the arbitrary-precision fallback)
+    [] s.op \in {"CeilP1", "FloorP1", "CeilBig", "FloorBig"} -> R(st1, <<n>>)
     [] s.op \in {"Tap", "TapOnNext"} -> R(stc, <<n>>)
     [] s.op = "Filter"   -> IF FPred(s, v, i) THEN R(stc, <<N(v, CbCtx(s, c))>>) ELSE R(stc, <<>>)
     [] s.op = "Distinct" -> IF v \in st.seen THEN R(st1, <<>>) ELSE R([st1 EXCEPT !.seen = @ \cup {v}], <<n>>)
@@ -209,11 +212,11 @@ OpStep(s, st, n) ==
 (***************************************************************************)
 IntOnly == {"Map", "MapErr", "Scan", "Filter", "Distinct", "DistinctBy", "SkipWhile", "TakeWhile", "First", "Last", "Find",
             "Sum", "Min", "Max", "Clamp", "Reduce", "All", "Contains", "StartWith", "EndWith", "DefaultIfEmpty",
-            "Ceil", "Floor", "Round", "Trunc", "Abs", "Average",
+            "Ceil", "Floor", "Round", "Trunc", "Abs", "Average", "CeilP1", "FloorP1", "CeilBig", "FloorBig",
             "ElementAtOrDefault", "OnErrorReturn", "ToMap", "Pairwise"}
 TIn(s) == CASE s.op \in IntOnly -> "int" [] s.op = "Flatten" -> "seq" [] s.op = "Dematerialize" -> "notif" [] OTHER -> "any"
 TOut(s, t) ==
-  CASE s.op \in {"Map", "MapTo", "MapErr", "Scan", "Sum", "Min", "Max", "Clamp", "Reduce", "Count", "Ceil", "Floor", "Round", "Trunc", "Abs", "Average"} -> "int"
+  CASE s.op \in {"Map", "MapTo", "MapErr", "Scan", "Sum", "Min", "Max", "Clamp", "Reduce", "Count", "Ceil", "Floor", "Round", "Trunc", "Abs", "Average", "CeilP1", "FloorP1", "CeilBig", "FloorBig"} -> "int"
     [] s.op \in {"BufferWithCount", "Pairwise", "ToSlice"} -> "seq"
     [] s.op = "ToMap" -> "map"
     [] s.op \in {"All", "Contains"} -> "bool"
